@@ -352,6 +352,17 @@ class Env:
                     p = path(a[0])
                     if p and len(p) == 1:
                         self.assigned.add(p[0])
+            if k in ("Call", "MCall", "Construct", "OpCall"):
+                # a local handed to a non-const reference parameter may be written by the callee
+                sig = (n.get("callee") or {}).get("sig", [])
+                args = n.get("args", [])
+                if k == "OpCall" and (n.get("callee") or {}).get("cls"):
+                    args = args[1:]
+                for a, t in zip(args, sig):
+                    if t.endswith("&") and not t.startswith("const ") and not t.endswith("&&"):
+                        p = path(a)
+                        if p and len(p) == 1:
+                            self.assigned.add(p[0])
 
     def definition(self, p):
         """Initialiser of a never-reassigned local, else None."""
